@@ -153,15 +153,20 @@ PLANS["C13"] = {
 }
 
 
+def _rmc(fmt, cells, rows, cols, aligns, decors, hdr, html="{}"):
+    return dict(Fmt=fmt, CellNames=Raw(cells), MaxCols=cols, MaxRows=rows, AlignVals=Raw(aligns), DecorNames=Raw(decors),
+                HdrChoices=Raw(hdr), HtmlChoices=Raw(html))
+
+
 def _textmc(cells, rows, cols, aligns, decors, hdr):
-    return dict(CellNames=Raw(cells), MaxCols=cols, MaxRows=rows, AlignVals=Raw(aligns), DecorNames=Raw(decors), HdrChoices=Raw(hdr))
+    return _rmc("text", cells, rows, cols, aligns, decors, hdr)
 
 
 PLANS["C03"] = {
     "facets": "none",
     "own": ["out.text", "out.errtext"],
     "mc": [{
-        "module": "MCText",
+        "module": "MCRender",
         "quick": _textmc('{"e", "a", "m"}', 2, 2, "{}", '{"default", "none"}', "{0, 1, 2}"),
         "thorough": _textmc('{"e", "a", "w", "m"}', 3, 2, "{}", '{"default", "none"}', "{0, 1, 2}"),
         "subst": {"quick": [{"n": 1}], "thorough": [{"n": 1}, {"n": 2}]},
@@ -179,7 +184,7 @@ PLANS["C04"] = {
     "facets": "none",
     "own": ["out.text", "out.errtext"],
     "mc": [{
-        "module": "MCText",
+        "module": "MCRender",
         "quick": _textmc('{"a", "m", "W5", "H3"}', 1, 2, '{"vL", "vR", "vC"}', '{"default"}', "{1}"),
         "thorough": _textmc('{"a", "m", "W5", "W1", "H3", "H1"}', 1, 2, '{"vL", "vR", "vC"}', '{"default", "none"}', "{2}"),
         "subst": {"quick": [{"n": 1}], "thorough": [{"n": 1}]},
@@ -189,5 +194,85 @@ PLANS["C04"] = {
     "assumptions": [
         "multi-line items that also declare a width are not generated (the statement speaks of single-line items only)",
         "alignment values are the library's Left/Right/Center (other values make the library panic by design: TestingInvalidAlignment)",
+    ],
+}
+
+
+PLANS["C05"] = {
+    "facets": "none",
+    "own": ["out.csv", "out.errtext"],
+    "mc": [{
+        "module": "MCRender",
+        "quick": _rmc("csv", '{"E", "x", "Q", "CQ"}', 2, 2, "{}", "{}", "{0, 1, 2}"),
+        "thorough": _rmc("csv", '{"E", "x", "Q", "C", "N", "RN", "QQ"}', 2, 2, "{}", "{}", "{0, 1, 2}"),
+        "run_opts": {"extra": ["-bytes"]},
+        "subst": {"quick": [{"n": 1, "pool": "csv"}], "thorough": [{"n": 1, "pool": "csv"}, {"n": 2, "pool": "csv"}]},
+    }],
+    "random": [{"gen": gens.gen_csv, "run_opts": {"extra": ["-bytes"]}}],
+    "min_scenarios": {"quick": 3000, "thorough": 50000},
+    "assumptions": [
+        "byte strings travel through JSON as Latin-1 (one rune per byte) on both sides; the strict RFC 4180 reader is the TLA+ operator CsvParse",
+        "LF and CRLF are both accepted as record terminators (RFC 4180 says CRLF; the library writes LF)",
+    ],
+}
+
+PLANS["C06"] = {
+    "facets": "none",
+    "own": ["out.html", "out.errtext"],
+    "mc": [{
+        "module": "MCRender",
+        "quick": _rmc("html", '{"E", "x", "LT"}', 2, 2, "{}", "{}", "{0, 1, 2}", '{"none", "all", "gen0"}'),
+        "thorough": _rmc("html", '{"E", "x", "LT", "AMP", "Q", "SC", "SP"}', 2, 2, "{}", "{}", "{0, 1, 2}", '{"none", "all", "gen0"}'),
+        "subst": {"quick": [{"n": 1, "pool": "html"}], "thorough": [{"n": 1, "pool": "html"}, {"n": 2, "pool": "html"}]},
+    }],
+    "random": [{"gen": gens.gen_html}],
+    "min_scenarios": {"quick": 3000, "thorough": 50000},
+    "assumptions": [
+        "the hand-written strict tokenizer (lex.go: lexHTML, with hostile self-tests) is right; entity decoding is html.UnescapeString",
+        "strings are valid UTF-8 without NUL (html/template substitutes U+FFFD otherwise; outside the stated alphabets)",
+    ],
+}
+
+PLANS["C07"] = {
+    "facets": "none",
+    "own": ["out.json", "out.errtext"],
+    "mc": [
+        # separators in every position: all row/separator sequences up to length 5
+        {"module": "MCRender",
+         "quick": _rmc("json", '{"x"}', 5, 1, '{"vtrue"}', "{}", "{1}"),
+         "thorough": _rmc("json", '{"x", "E"}', 6, 1, '{"vtrue", "vfalse"}', "{}", "{1}")},
+        # contents, header error cases and skipable assignments on one or two rows
+        {"module": "MCRender",
+         "quick": _rmc("json", '{"E", "x", "obj"}', 1, 2, '{"vtrue", "vbad"}', "{}", "{0, 1, 2}"),
+         "thorough": _rmc("json", '{"E", "x", "U", "obj", "obje", "nil", "num"}', 2, 2, '{"vtrue", "vfalse", "vbad"}', "{}", "{0, 1, 2}"),
+         "subst": {"quick": [{"n": 1, "pool": "json"}], "thorough": [{"n": 1, "pool": "json"}]}},
+    ],
+    "random": [{"gen": gens.gen_json}],
+    "min_scenarios": {"quick": 3000, "thorough": 50000},
+    "assumptions": [
+        "the JSON encoding of an item is encoding/json's (logged by the driver in canonical form), as the statement names it",
+        "the output is read with encoding/json's streaming decoder (duplicate keys visible) and json.Valid",
+    ],
+}
+
+PLANS["C08"] = {
+    "facets": "none",
+    "own": ["out.md", "out.errtext"],
+    "mc": [
+        # shapes and hostile contents, no alignment settings
+        {"module": "MCRender",
+         "quick": _rmc("md", '{"E", "x", "P", "NN"}', 2, 2, "{}", "{}", "{0, 1, 2}"),
+         "thorough": _rmc("md", '{"E", "x", "P", "NN", "BP", "LT"}', 2, 2, "{}", "{}", "{0, 1, 2}"),
+         "subst": {"quick": [{"n": 1, "pool": "md"}], "thorough": [{"n": 1, "pool": "md"}]}},
+        # every alignment assignment to column 0 and each column
+        {"module": "MCRender",
+         "quick": _rmc("md", '{"x", "P"}', 1, 2, '{"vL", "vR", "vC"}', "{}", "{1, 2}"),
+         "thorough": _rmc("md", '{"E", "x", "P"}', 1, 2, '{"vL", "vR", "vC"}', "{}", "{0, 1, 2}")},
+    ],
+    "random": [{"gen": gens.gen_md}],
+    "min_scenarios": {"quick": 3000, "thorough": 50000},
+    "assumptions": [
+        "cells are split at pipes not preceded by a backslash (GFM); entity decoding is html.UnescapeString; only spaces are trimmed",
+        "texts are free of carriage returns (documented non-goal)",
     ],
 }
